@@ -5,7 +5,7 @@
 (*                                                                         *)
 (* One action per critical section of the code (everything below runs      *)
 (* under c.mu in the implementation):                                      *)
-(*   Add / Get / Remove          the public calls                          *)
+(*   Add / Get / Remove / Clear  the public calls                          *)
 (*   Release(h, evict)           the done() closure returned by Add/Get    *)
 (*   TimerFire, TimerEvict       time.AfterFunc: the timer goroutine has   *)
 (*                               fired and waits for c.mu, then evicts BY  *)
@@ -134,6 +134,20 @@ Remove(k) ==
     /\ UNCHANGED handles
     /\ last' = [act |-> "Remove", k |-> k]
 
+\* LRUCache.Clear (added with the repair of cache.directoryCache.Close): every entry leaves the cache at once;
+\* groupcache's Clear runs the inner eviction callback (= finalize) for each entry
+RECURSIVE FinalizeAll(_, _)
+FinalizeAll(vs, S) ==
+    IF S = {} THEN vs
+    ELSE LET v == CHOOSE x \in S : TRUE IN FinalizeAll(Finalize(vs, v), S \ {v})
+Clear ==
+    /\ Kind = "lru"
+    /\ vals' = FinalizeAll(vals, {live[k] : k \in {x \in Keys : live[x] # NoVal}})
+    /\ live' = [k \in Keys |-> NoVal]
+    /\ order' = <<>>
+    /\ UNCHANGED handles
+    /\ last' = [act |-> "Clear"]
+
 \* the done() closure. evict is only meaningful for the TTL cache (done(bool)).
 Release(h, evict) ==
     /\ h \in HandleIds
@@ -184,6 +198,7 @@ Next ==
     \/ \E k \in Keys : Add(k)
     \/ \E k \in Keys : Get(k)
     \/ \E k \in Keys : Remove(k)
+    \/ Clear
     \/ \E h \in HandleIds, e \in BOOLEAN : Release(h, e)
     \/ \E v \in ValIds : TimerFire(v)
     \/ \E v \in ValIds : TimerEvict(v)
